@@ -349,6 +349,9 @@ def run(ctx) -> None:
                 for a in atoms_of(st.test):
                     subj = a.left if isinstance(a, ast.Compare) and len(a.ops) == 1 and isinstance(a.ops[0], (ast.Is, ast.IsNot)) and isinstance(a.comparators[0], ast.Constant) and a.comparators[0].value is None else a
                     subj = look(subj)
+                    if isinstance(subj, ast.Name) and subj.id in f.param_names and subj is a:
+                        why = f"status is decided by the truth value of '{subj.id}': an exception object that is falsy (one that defines __len__ or __bool__) is reported as a completed run"
+                        break
                     if not (isinstance(subj, ast.Name) and subj.id in f.param_names):
                         why = f"status is decided by '{src(subj)[:50]}', a value derived from the exception rather than its presence: a failure with an empty message is reported as completed"
                         break
